@@ -261,7 +261,7 @@ pub fn check_body(table: &Table, mapfile: &str, body: &str, vals: &[Valuation]) 
         // then resets it on entering a block but not when falling through a flat jump, so the two *spellings* of one stream
         // disagree on time inside AstVm only.  For such bodies calls and registers are compared, times are not (the structural
         // clause above already requires the timed jumps to be left untouched).
-        let timed = body.contains('@');
+        let timed = body.contains('@') || flat_text.contains('@');   // (the decompiler prints `@ t` whenever a jump's time differs from its label's)
         if let Some(diff) = compare_traces_term_ex(&a, &b, &cmp_regs, !timed, !timed) {
             out.failures.push(Failure { signature: format!("C07:behaviour:{body}"), detail: detail(json!({"valuation": vi, "difficulty": d, "diff": diff, "flat": flat_text, "structured": st_text})) });
             break;
